@@ -24,6 +24,8 @@ import Frp.Engines.E2e
 import Frp.Engines.Pool
 import Frp.Engines.HttpE2e
 import Frp.Engines.Xtcp
+import Frp.Engines.Vmgr
+import Frp.Engines.Svc
 /-! Registry of driver engines (one line per engine). -/
 namespace Frp.Engines
 open Frp.Proto
@@ -55,5 +57,7 @@ def all : List (String × Engine) :=
   , ("pool", pool)
   , ("httpe2e", httpe2e)
   , ("xtcp", xtcp)
+  , ("vmgr", vmgr)
+  , ("svc", svc)
   ]
 end Frp.Engines
